@@ -648,6 +648,11 @@ func (x *Exec) builtin(st *State, fr *Frame, name string, cc *ssa.CallCommon, ar
 		return vTuple(vPtr(p.T, p.Prov), vBV(ln, 64, true), vBV(ln, 64, true))
 	case "StringData", "SliceData":
 		return args[0].Fs[0]
+	case "Sizeof":
+		// unsafe.Sizeof of a value whose type is only known after instantiation (elsewhere it is a constant)
+		if _, isTP := cc.Args[0].Type().(*types.TypeParam); !isTP {
+			return vBV(bvLit(uint64(sizeof(cc.Args[0].Type())), 64), 64, false)
+		}
 	}
 	unsup("builtin %s", name)
 	return V{}
